@@ -124,6 +124,9 @@ type Exec struct {
 	pools        map[*Cell][]Value
 	condWaiters  map[*Cell][]*gor
 	abstracted   bool // this path used an over-approximating model
+	opGors       []*gor          // logical operation threads of vConcurrently (interleaving exploration)
+	preemptions  int             // scheduling decisions other than run-to-completion taken on this path
+	muState      map[*Cell]*muSt // mutex model while operation threads are live
 	evl          *eventLogT
 	hashInjective bool
 	cacheHits    int
